@@ -117,8 +117,10 @@ class SimProc:
         self.registry_lock = None
         self.main_module = None
         self.next_ident = 0
+        self.free_idents = []         # identifiers of finished threads, reused last-in first-out
         self.tokens = {}
         self.stopped_pending = []
+        self.nstop = 0                # times the process was stopped (SIGSTOP) so far
         self.started_at = sim.now
         self.exited_at = None
         self.run_done = False     # Process.run() has returned (the process may linger joining non-daemon threads)
@@ -271,8 +273,14 @@ class Sim:
                 name = f'{creator.name}.{creator.nspawn}'
                 creator.nspawn += 1
         t = SimThread(self, proc, name, fn, daemon=daemon, role=role)
-        proc.next_ident += 1
-        t.ident = self.ident_base + proc.next_ident * 0x1000
+        if proc.free_idents:
+            # like pthread_t under glibc (the stack of a finished thread is cached and handed to the next thread created), the
+            # python thread identifier of a finished thread is recycled at once; native thread ids are not
+            t.ident = proc.free_idents.pop()
+            self.probe('thread-ident-recycled')
+        else:
+            proc.next_ident += 1
+            t.ident = self.ident_base + proc.next_ident * 0x1000
         self.next_tid += 1
         t.native_id = self.next_tid
         proc.threads.append(t)
@@ -310,6 +318,8 @@ class Sim:
         if t.state == FROZEN:
             self._park_forever(t)
         t.state = DONE
+        if t.ident is not None and t.proc.alive and t is not t.proc.main:
+            t.proc.free_idents.append(t.ident)
         self.ev('done', t.name)
         self._wake_q(t.done_q)
         if t is self.root:
@@ -889,6 +899,7 @@ class Sim:
     def stop_proc(self, p):
         if p.state == 'running':
             p.state = 'stopped'
+            p.nstop += 1
             self.ev('sigstop', p.name)
 
     def cont_proc(self, p):
